@@ -108,6 +108,24 @@ CLAIMS = {
               "deterministic FiniteStateController class cannot be constructed at all (its two shape assertions are swapped) and is "
               "therefore not a roll-out driver here."),
         ref='DESIGN.md section 4 C14'),
+    'C10': dict(
+        text=("Q-learning, SARSA, expected SARSA and double Q-learning are run through train_on with symbolic rewards, symbolic "
+              "initial Q-values (constant or per state-action), symbolic exploration rate and a nondeterministic generator, so "
+              "every experienced history within the bound is explored. An event listener passed through the public hook records "
+              "the experience; on every path z3 proves: each step is a real positive-probability transition from a non-absorbing "
+              "state with an available action and the model's reward (as a term), steps chain, and the returned Q-table equals "
+              "the published update rule folded by the harness over that experience from the configured initial values with "
+              "absorbing states at 0 (entry by entry, as terms; double Q: the TD error must use a greedy action of the updated "
+              "table evaluated under the other one); the returned policy is uniform over exactly the max-Q actions of visited "
+              "states and over all available actions elsewhere; Q-values stay in the interval spanned by the initial value and "
+              "the discounted reward bounds for every step size in [0,1] (symbolic); a learner trained twice keeps each result's "
+              "policy greedy for its own table."),
+        note=("3 skeletons (state-dependent action sets, absorbing initial state), 1-2 episodes, <= 2 steps per episode in quick "
+              "(3 in thorough; longer histories are cut and counted), step size from {0,1/10,1/2,1} in the fold harness, softmax "
+              "temperature 0 and 1 (exp uninterpreted-positive-monotone; at temperature 1 the learner is stopped after its first "
+              "update). Two defects found by this check were repaired in /repo (SARSA absorbing initial state; policy at "
+              "unvisited states)."),
+        ref='DESIGN.md section 4 C10'),
     'C11': dict(
         text=("For every support size within the bound and every distribution kind, the probability-calculus laws are "
               "proved for ALL probability/weight/score values at once (symbolic reals, zero entries included), by running "
